@@ -626,6 +626,12 @@ orc_compiler_compile_program (OrcCompiler *compiler, OrcProgram *program, OrcTar
     memcpy(program->orccode->code, compiler->code, program->orccode->code_size);
   }
 #else
+#ifdef ORC_VERIF_HOOKS
+  {
+    extern void (*orc_verif_yield_hook) (int point);
+    if (orc_verif_yield_hook) orc_verif_yield_hook (3);
+  }
+#endif
   memcpy(program->orccode->code, compiler->code, program->orccode->code_size);
 #endif
 
